@@ -566,8 +566,53 @@ type addrKey struct {
 	path string
 }
 
+// plainCell: a local variable cell whose address is only ever loaded from, stored to, or handed
+// to a call as an argument (never stored, captured, converted or indexed): a call that is not
+// given the address cannot touch it.
+var plainCellCache = map[*ssa.Alloc]bool{}
+
+func plainCell(al *ssa.Alloc) bool {
+	if v, ok := plainCellCache[al]; ok {
+		return v
+	}
+	ok := true
+	switch derefType(al.Type()).Underlying().(type) {
+	case *types.Slice, *types.Basic, *types.Pointer, *types.Map, *types.Interface:
+	default:
+		ok = false
+	}
+	if refs := al.Referrers(); refs != nil && ok {
+		for _, ref := range *refs {
+			switch x := ref.(type) {
+			case *ssa.UnOp:
+				if x.Op != token.MUL {
+					ok = false
+				}
+			case *ssa.Store:
+				if x.Addr != ssa.Value(al) {
+					ok = false
+				}
+			case *ssa.Call:
+				if x.Call.Value == ssa.Value(al) {
+					ok = false
+				}
+			case *ssa.DebugRef:
+			default:
+				ok = false // defer, go, closures, conversions, field/index addressing
+			}
+		}
+	}
+	plainCellCache[al] = ok
+	return ok
+}
+
 func keyOf(v ssa.Value) (addrKey, bool) {
 	switch x := v.(type) {
+	case *ssa.Alloc:
+		if plainCell(x) {
+			return addrKey{root: x}, true
+		}
+		return addrKey{}, false
 	case *ssa.FieldAddr:
 		k, ok := keyOf(x.X)
 		if !ok {
